@@ -19,7 +19,7 @@ trusted = ["hand-written model MptModel/Impl/Ring.lean tied to mptcore/queue/*.c
 
 
 def corpus(chk):
-    return gen.corpus(id)
+    return [(n, s) for n, s in gen.corpus(id) if s and s[0].startswith("q ")]
 
 
 def _fill(n, base=0x61):
@@ -106,6 +106,68 @@ def scripts(tier, seed, scale=1):
             cur = max(0, min(mx, cur))
         out.append(("rnd:%d" % k, lines))
     return out
+
+
+class _XX:
+    """second part: the C++ io::queue wrappers (mpt++/io_queue.cpp) through harness/drvxx_queue.cpp"""
+    id = "C13"
+    area = "queue"
+    driver = "drvxx_queue"
+    cxx = True
+    fixed_lines = 1
+
+    @staticmethod
+    def corpus(chk):
+        return [(n, s) for n, s in gen.corpus(id) if s and s[0].startswith("xq ")]
+
+    @staticmethod
+    def scripts(tier, seed, scale=1):
+        out = []
+        # exhaustive: capacities 0 and 8 (the wrapper allocates in multiples of 8), every offset/fill <= 8 (step 2), one op
+        for mx in (0, 8):
+            for off in range(0, mx + 1, 1 if tier != "quick" else 3):
+                for ln in range(0, mx + 1, 1 if tier != "quick" else 2):
+                    new = "xq new %d %d %s" % (mx, off, _fill(ln))
+                    ops = []
+                    for n in (0, 1, 2, 3, mx - ln, mx - ln + 1, 9, 17):
+                        if n < 0:
+                            continue
+                        ops += ["xq push " + _fill(n, 0x41), "xq unshift " + _fill(n, 0x41)]
+                        ops += ["xq pop %d" % n, "xq pop %d nodst" % n, "xq shift %d" % n, "xq shift %d nodst" % n, "xq peek %d" % n]
+                    for part in (1, 2, 3):
+                        for cnt in (1, 2, 3, 5):
+                            ops.append("xq write %d %s" % (part, _fill(part * cnt, 0x30)))
+                            ops.append("xq read %d %d" % (cnt, part))
+                    for op in sorted(set(ops)):
+                        out.append(("xx:%d/%d/%d:%s" % (mx, off, ln, op), [new, op, "xq peek 0"]))
+        r = gen.rng(id, tier, seed, "xx-random")
+        for k in range((150 if tier == "quick" else 1500) * scale):
+            mx = r.choice([0, 8, 16, 64])
+            off = r.randrange(mx + 1)
+            ln = r.randrange(mx + 1)
+            lines = ["xq new %d %d %s" % (mx, off, gen.hexs([r.randrange(256) for _ in range(ln)]))]
+            for _ in range(r.choice([5, 10, 20])):
+                kind = r.choice(["push", "unshift", "pop", "shift", "write", "read", "peek"])
+                if kind in ("push", "unshift"):
+                    lines.append("xq %s %s" % (kind, gen.hexs([r.randrange(256) for _ in range(r.choice([0, 1, 2, 7, 8, 9, 30]))])))
+                elif kind in ("pop", "shift"):
+                    lines.append("xq %s %d%s" % (kind, r.choice([0, 1, 2, 5, 9, 40]), r.choice(["", "", " nodst"])))
+                elif kind == "write":
+                    part = r.choice([1, 2, 4, 5])
+                    lines.append("xq write %d %s" % (part, gen.hexs([r.randrange(256) for _ in range(part * r.choice([1, 2, 3, 7]))])))
+                elif kind == "read":
+                    lines.append("xq read %d %d" % (r.choice([1, 2, 3]), r.choice([1, 2, 4, 5])))
+                else:
+                    lines.append("xq peek %d" % r.choice([0, 1, 3, 9]))
+            out.append(("xxrnd:%d" % k, lines))
+        return out
+
+    nontrivial = staticmethod(lambda script, c_lines: nontrivial(script, c_lines))
+    tally = staticmethod(lambda chk, script, c_lines: tally(chk, script, c_lines))
+    finding_key = staticmethod(lambda script, res: finding_key(script, res))
+
+
+extra_parts = [_XX]
 
 
 def nontrivial(script, c_lines):
